@@ -49,6 +49,26 @@ def tree_key(*extra):
     return hashlib.sha256((h + "|" + "|".join(str(e) for e in extra)).encode()).hexdigest()[:20]
 
 
+def prune_cache(max_age_s=6 * 3600):
+    """the cache is keyed by the hash of the tree under test and of the
+    machinery: entries of trees that no longer exist pile up; drop old ones"""
+    now = time.time()
+    try:
+        names = os.listdir(CACHE)
+    except OSError:
+        return
+    for n in names:
+        p = os.path.join(CACHE, n)
+        try:
+            if now - os.path.getmtime(p) > max_age_s:
+                if os.path.isdir(p):
+                    shutil.rmtree(p, ignore_errors=True)
+                else:
+                    os.remove(p)
+        except OSError:
+            pass
+
+
 def scratch():
     base = os.environ.get("VERIF_SCRATCH") or tempfile.gettempdir()
     return tempfile.mkdtemp(prefix="verif_", dir=base)
@@ -232,6 +252,7 @@ def trace_batch(name, tier):
         if os.path.exists(done):
             with open(done) as f:
                 return json.load(f), d
+        prune_cache()
         shutil.rmtree(d, ignore_errors=True)
         os.makedirs(d)
         t0 = time.time()
@@ -315,6 +336,7 @@ def pair_batch(name, tier, builder):
         if os.path.exists(done):
             with open(done) as f:
                 return json.load(f), d
+        prune_cache()
         shutil.rmtree(d, ignore_errors=True)
         os.makedirs(d)
         if VERIF not in sys.path:
